@@ -41,7 +41,8 @@ impl ToPy for TrueName {
 impl ToPy for StringName {
     fn to_py(&self, imp: &mut Imports) -> Core {
         match self.name.as_str() {
-            clss::UNION => self
+            // without arguments it is not the union of types, but a class of that name
+            clss::UNION if !self.generics.is_empty() => self
                 .generics
                 .iter()
                 .sorted()
